@@ -44,12 +44,21 @@ def variants():
                         for s in strs:
                             if name == "controlled_Veq":
                                 vsls = [[], [0], list(range(N)), [N - 1]] if N > 1 else [[], [0]]
+                                if N >= 4:
+                                    # signs with a gap, and a sign list that is not in increasing order (entry k of
+                                    # the limits belongs to segment vsl[k] whatever the order)
+                                    vsls += [[0, 2], [2, 0], [N - 1, 1]]
                                 vsls = [list(x) for x in {tuple(v) for v in vsls}]
                             else:
                                 vsls = [None]
                             for vsl in sorted(vsls, key=lambda x: (x is None, x)):
                                 out.append(dict(cls=cls, name=name, suffix=suffix, sig=sig, N=N,
                                                 present=present, s=s, vsl=vsl))
+                                if name == "get_ramp_flow" and s == "out":
+                                    # the documented default of the flow-equation type is "out": the same call with
+                                    # the argument left out
+                                    out.append(dict(cls=cls, name=name, suffix=suffix, sig=sig, N=N,
+                                                    present=present, s=s, vsl=vsl, omit_str=True))
     return out
 
 
@@ -221,6 +230,8 @@ def call_impl(var, vals, lib, scalar_shape="float"):
         elif t == "I":
             args.append(list(var["vsl"]))
         elif t == "STR":
+            if var.get("omit_str"):
+                continue
             args.append(bytes(var["s"], "ascii").decode("ascii"))     # equal to, but not the same object as, the literal
     if var["suffix"] == "_s":
         # scalar variant of Veq: call with python/0-d scalars
